@@ -12,6 +12,12 @@
 (*   server    : [abs |-> FALSE, base |-> <<"b">>, slash |-> BOOLEAN]                    *)
 (*             | [abs |-> TRUE, scheme, host |-> <<part>>, port |-> <<>> | <<part>>,     *)
 (*                base, slash]                                                           *)
+(*               (, sch |-> [v |-> "scheme", enum |-> <<"https", "http">>]  -- the scheme *)
+(*                 is the server variable {scheme} with these allowed values; the field  *)
+(*                 scheme is its default)                                                *)
+(*               (, bv |-> <<[i |-> 1, v |-> "ver"]>>  -- base-path variables: segment i *)
+(*                 of the base path is the server variable {ver}; base[i] is its default *)
+(*                 -- so base is always the base path under the defaults)                *)
 (*   document  : [templates |-> <<template>>, servers |-> <<server>>]                    *)
 (*   url       : [abs |-> FALSE, path |-> <<"b","a","">>]            ("/b/a/")           *)
 (*             | [abs |-> TRUE, scheme, host |-> <<"api","example","com">>,              *)
@@ -19,6 +25,11 @@
 (*               (, tail |-> "?" | "?a=1" | "?a=1#top" | "#top"  -- what follows the     *)
 (*                 path in the request URL: query marker, query, fragment; not part of   *)
 (*                 the path, so the contract never looks at it)                          *)
+(*               (, form |-> "server"  -- the request object is built the way net/http    *)
+(*                 hands one to a server's handler: the URL field holds the path (and    *)
+(*                 query) only, the host[:port] is in Request.Host, https shows as a     *)
+(*                 non-nil Request.TLS.  It is the same request URL -- the contract does *)
+(*                 not look at the form -- in another representation)                    *)
 (*   request   : [m |-> "GET", u |-> url]                                                *)
 (*   observation (what FindRoute did):                                                   *)
 (*        [k |-> "route", path |-> "/a/{x}", m, op, params |-> <<[n |-> "x", v |-> "v"]>>*)
@@ -85,13 +96,23 @@ PartStr(s) == IF IsVar(s) THEN "{" \o s.v \o "}"
 Strs(parts) == [i \in 1..Len(parts) |-> PartStr(parts[i])]
 TemplStr(t) == PathStr(Strs(t.segs))
 
+(* base-path variables of a server (a server variable as one whole segment of the base path) *)
+BaseVars(s) == IF "bv" \in DOMAIN s THEN s.bv ELSE <<>>
+BaseVarAt(s, i) == \E k \in 1..Len(BaseVars(s)) : BaseVars(s)[k].i = i
+BaseVarName(s, i) == BaseVars(s)[CHOOSE k \in 1..Len(BaseVars(s)) : BaseVars(s)[k].i = i].v
+BaseStrs(s) == [i \in 1..Len(s.base) |-> IF BaseVarAt(s, i) THEN "{" \o BaseVarName(s, i) \o "}" ELSE s.base[i]]
+
+HasSchemeVar(s) == "sch" \in DOMAIN s
+SchemeSet(s) == IF HasSchemeVar(s) THEN {s.sch.enum[i] : i \in 1..Len(s.sch.enum)} \cup {s.scheme} ELSE {s.scheme}
+
 ServerURL(s) ==
-   (IF s.abs THEN s.scheme \o "://" \o JoinDot(Strs(s.host)) \o
+   (IF s.abs THEN (IF HasSchemeVar(s) THEN "{" \o s.sch.v \o "}" ELSE s.scheme) \o "://" \o JoinDot(Strs(s.host)) \o
                   (IF Len(s.port) = 0 THEN "" ELSE ":" \o PartStr(s.port[1]))
     ELSE "")
-   \o PathStr(s.base) \o (IF s.slash THEN "/" ELSE "")
+   \o PathStr(BaseStrs(s)) \o (IF s.slash THEN "/" ELSE "")
 
 UTail(u) == IF "tail" \in DOMAIN u THEN u.tail ELSE ""
+UForm(u) == IF "form" \in DOMAIN u THEN u.form ELSE "client"
 BareURLStr(u) ==
    (IF u.abs THEN u.scheme \o "://" \o JoinDot(u.host) \o (IF Len(u.port) = 0 THEN "" ELSE ":" \o u.port[1])
     ELSE "")
@@ -126,19 +147,27 @@ Flat(doc) == [doc EXCEPT !.templates = [t \in 1..Len(doc.templates) |->
 (*  - a port other than the default of a server port variable (gorillamux documents      *)
 (*    that only the default matches, legacy treats the variable as a wildcard);          *)
 (*  - an explicit port against a server URL without a port.                              *)
-(* A host variable (no enum in this universe) matches any non-empty label.               *)
-SrvMatch(s, u) ==
-   IF ~s.abs THEN (IF u.abs /\ ~IsNone(s) THEN "open" ELSE "yes")
-   ELSE IF ~u.abs THEN "no"
-   ELSE IF u.scheme # s.scheme \/ Len(u.host) # Len(s.host) THEN "no"
+(*  - a scheme outside the enum of a scheme variable (the enum is the declared set of     *)
+(*    values; gorillamux matches exactly these, legacy treats the variable as a wildcard; *)
+(*    whether an undeclared value still is "under a declared server" is not said).        *)
+(* A host variable (no enum in this universe) matches any non-empty label, a base-path    *)
+(* variable any non-empty segment.                                                       *)
+SrvMatchRest(s, u) ==
+   IF Len(u.host) # Len(s.host) THEN "no"
    ELSE IF \E i \in 1..Len(s.host) : \/ IsLit(s.host[i]) /\ s.host[i].l # u.host[i]
                                      \/ IsVar(s.host[i]) /\ u.host[i] = "" THEN "no"
    ELSE IF Len(s.port) = 0 THEN (IF Len(u.port) = 0 THEN "yes" ELSE "open")
    ELSE IF Len(u.port) = 0 THEN "no"
    ELSE IF IsLit(s.port[1]) THEN (IF u.port[1] = s.port[1].l THEN "yes" ELSE "no")
    ELSE IF u.port[1] = s.port[1].d THEN "yes" ELSE "open"
+SrvMatch(s, u) ==
+   IF ~s.abs THEN (IF u.abs /\ ~IsNone(s) THEN "open" ELSE "yes")
+   ELSE IF ~u.abs THEN "no"
+   ELSE IF u.scheme \notin SchemeSet(s) THEN (IF HasSchemeVar(s) /\ SrvMatchRest(s, u) # "no" THEN "open" ELSE "no")
+   ELSE SrvMatchRest(s, u)
 
-HasBase(s, u) == Len(u.path) >= Len(s.base) /\ SubSeq(u.path, 1, Len(s.base)) = s.base
+HasBase(s, u) == /\ Len(u.path) >= Len(s.base)
+                 /\ \A i \in 1..Len(s.base) : IF BaseVarAt(s, i) THEN u.path[i] # "" ELSE u.path[i] = s.base[i]
 Residual(s, u) == SubSeq(u.path, Len(s.base) + 1, Len(u.path))
 
 -----------------------------------------------------------------------------
@@ -279,6 +308,22 @@ FailedFor(router, doc, req, obs) ==
    THEN (IF obs.k \notin {"route", "rerr"} THEN {"abnormal_" \o obs.k} ELSE {})
    ELSE Failed(doc, req, obs)
 
+(* Construction.  The statement quantifies over all validated documents: a router that    *)
+(* cannot be built from one routes none of the requests the completeness clause demands. *)
+(* built = "ok" | "error" | "panic" (what NewRouter did with the loaded, validated        *)
+(* document).                                                                            *)
+BuildFailed(doc, built) == IF built = "ok" THEN {} ELSE {"router_not_built_for_validated_document"}
+
+(* the variable names of a template / the variables of a server by where they sit *)
+TemplVars(t) == UNION {SegVars(t.segs[i]) : i \in 1..Len(t.segs)}
+HostVarNames(s) == IF s.abs THEN {s.host[i].v : i \in {j \in 1..Len(s.host) : IsVar(s.host[j])}} ELSE {}
+PortVarNames(s) == IF s.abs THEN {s.port[i].v : i \in {j \in 1..Len(s.port) : IsVar(s.port[j])}} ELSE {}
+BaseVarNames(s) == {BaseVars(s)[k].v : k \in 1..Len(BaseVars(s))}
+ServerVarNames(s) == HostVarNames(s) \cup PortVarNames(s) \cup BaseVarNames(s) \cup (IF HasSchemeVar(s) THEN {s.sch.v} ELSE {})
+(* some template is offered under a server one of whose variables has the name of one of its own *)
+SharedNames(doc) == UNION {UNION {ServerVarNames(TServers(doc, t)[i]) \cap TemplVars(doc.templates[t]) :
+                                    i \in 1..Len(TServers(doc, t))} : t \in 1..Len(doc.templates)}
+
 (* History: "whenever a router returns a route, the route's operation is the one the      *)
 (* document declares for the request method under the route's path template" must keep   *)
 (* holding for a route the caller still holds while the same router routes further       *)
@@ -347,7 +392,7 @@ MuxOrder(doc) == SetToSortSeq(1..Len(doc.templates), LAMBDA a, b : MuxBefore(doc
 MuxRoute(s, t, req) ==
    LET u == req.u
        pathOK == HasBase(s, u) /\ Matches(t, Residual(s, u))
-       schemeOK == ~s.abs \/ (IF u.abs THEN u.scheme ELSE "http") = s.scheme
+       schemeOK == ~s.abs \/ (IF u.abs THEN u.scheme ELSE "http") \in SchemeSet(s)      \* (a scheme variable: one mux Schemes matcher with all its values)
        hostOK == ~s.abs \/
                  /\ u.abs /\ Len(u.host) = Len(s.host)
                  /\ \A i \in 1..Len(s.host) : IF IsLit(s.host[i]) THEN u.host[i] = s.host[i].l ELSE u.host[i] # ""
@@ -369,16 +414,38 @@ MuxRoutesFrom(doc, ord, k, cur, localServers) ==
         IN [i \in 1..Len(use) |-> [t |-> t, s |-> use[i]]] \o MuxRoutesFrom(doc, ord, k + 1, nxt, localServers)
 MuxRoutes(doc, localServers) == MuxRoutesFrom(doc, MuxOrder(doc), 1, ServersOf(doc), localServers)
 
-RECURSIVE MuxScan(_, _, _, _, _, _)
-MuxScan(doc, req, routes, k, sawMethod, keepLooking) ==
+(* Server variables and the variables of the path template end up in ONE map.  gorilla/mux *)
+(* compiles host and path of a route into two regular expressions and refuses a route     *)
+(* whose host template and path template share a variable name (NewRouter fails:          *)
+(* hostNamesApart = FALSE, the pinned code; TRUE = a design that keeps them apart); a     *)
+(* base-path variable is part of the path template, where the later occurrence -- the     *)
+(* path template's -- wins; a port variable is replaced by its default when the route is  *)
+(* registered and written into the map AFTER the match (portClobbers = TRUE, the pinned   *)
+(* code: a path variable of the same name is overwritten; FALSE = the template's value    *)
+(* is kept).                                                                              *)
+MuxBuilds(doc, localServers, hostNamesApart) ==
+   \/ hostNamesApart
+   \/ LET rs == MuxRoutesFrom(doc, MuxOrder(doc), 1, ServersOf(doc), localServers) IN
+      \A k \in 1..Len(rs) : HostVarNames(rs[k].s) \cap TemplVars(doc.templates[rs[k].t]) = {}
+
+Clobbered(ps, s) ==
+   IF PortVarNames(s) = {} THEN ps
+   ELSE [i \in 1..Len(ps) |-> IF ps[i].n = s.port[1].v THEN [n |-> ps[i].n, v |-> s.port[1].d] ELSE ps[i]]
+
+RECURSIVE MuxScan(_, _, _, _, _, _, _)
+MuxScan(doc, req, routes, k, sawMethod, keepLooking, portClobbers) ==
    IF k > Len(routes) THEN (IF sawMethod THEN MethodNotAllowed ELSE NotFound)
    ELSE LET r == routes[k]
             res == MuxRoute(r.s, doc.templates[r.t], req)
-        IN IF res = "match" THEN RouteObs(doc, req, r.t, r.s)
+        IN IF res = "match"
+           THEN LET o == RouteObs(doc, req, r.t, r.s) IN
+                IF portClobbers THEN [o EXCEPT !.params = Clobbered(o.params, r.s)] ELSE o
            ELSE IF res = "method" /\ ~keepLooking THEN MethodNotAllowed
-           ELSE MuxScan(doc, req, routes, k + 1, sawMethod \/ res = "method", keepLooking)
+           ELSE MuxScan(doc, req, routes, k + 1, sawMethod \/ res = "method", keepLooking, portClobbers)
 
-MuxObs(doc, req, keepLooking, localServers) == MuxScan(doc, req, MuxRoutes(doc, localServers), 1, FALSE, keepLooking)
+MuxObsP(doc, req, keepLooking, localServers, portClobbers) ==
+   MuxScan(doc, req, MuxRoutes(doc, localServers), 1, FALSE, keepLooking, portClobbers)
+MuxObs(doc, req, keepLooking, localServers) == MuxObsP(doc, req, keepLooking, localServers, FALSE)
 
 -----------------------------------------------------------------------------
 (* L2b: legacy.  Servers.MatchURL picks the first server whose URL pattern is a prefix   *)
@@ -395,7 +462,7 @@ Std9 == {"GET", "POST", "PUT", "DELETE", "PATCH", "HEAD", "OPTIONS", "TRACE", "C
 
 LegacySrvMatch(s, u) ==
    IF ~s.abs THEN ~u.abs /\ HasBase(s, u)
-   ELSE /\ u.abs /\ u.scheme = s.scheme /\ Len(u.host) = Len(s.host)
+   ELSE /\ u.abs /\ (HasSchemeVar(s) \/ u.scheme = s.scheme) /\ Len(u.host) = Len(s.host)
         /\ \A i \in 1..Len(s.host) : IsLit(s.host[i]) => u.host[i] = s.host[i].l
         /\ IF Len(s.port) = 0 THEN Len(u.port) = 0
            ELSE Len(u.port) = 1 /\ (IsLit(s.port[1]) => u.port[1] = s.port[1].l)
@@ -434,8 +501,17 @@ LegacySees(sv, u, r, wirePath) ==
    ELSE IF FragGlued(u) /\ Len(r) > 0 THEN [r EXCEPT ![Len(r)] = r[Len(r)] \o "#top"]
    ELSE r
 
-LegacyObs(doc, req, nonEmptyVars, keepSlash, methodGuard, wirePath) ==
-   LET u == req.u
+(* The legacy router reads Request.URL only (seesHost = FALSE, the pinned code): of a       *)
+(* request in server form it sees the path alone, a relative URL, whatever Host and TLS    *)
+(* say; seesHost = TRUE is the design that routes the request URL in either form.          *)
+LegacyView(u, seesHost) ==
+   IF UForm(u) = "server" /\ ~seesHost
+   THEN [f \in (DOMAIN u \ {"scheme", "host", "port"}) |-> IF f = "abs" THEN FALSE ELSE u[f]]
+   ELSE u
+
+LegacyObsH(doc, req0, nonEmptyVars, keepSlash, methodGuard, wirePath, seesHost) ==
+   LET req == [req0 EXCEPT !.u = LegacyView(req0.u, seesHost)]
+       u == req.u
        S == ServersOf(doc)
        hits == {i \in 1..Len(S) : IF IsNone(S[i]) THEN TRUE ELSE LegacySrvMatch(S[i], u)}
    IN IF hits = {} THEN NotFound
@@ -449,14 +525,17 @@ LegacyObs(doc, req, nonEmptyVars, keepSlash, methodGuard, wirePath) ==
               ELSE IF \E t \in 1..Len(doc.templates) : TemplStr(doc.templates[t]) = PathStr(r)
                    THEN (IF req.m \in Std9 \/ methodGuard THEN MethodNotAllowed ELSE [k |-> "panic"])
                    ELSE NotFound
+LegacyObs(doc, req, nonEmptyVars, keepSlash, methodGuard, wirePath) ==
+   LegacyObsH(doc, req, nonEmptyVars, keepSlash, methodGuard, wirePath, TRUE)
 
 (* the models of the code as it is now: the switches of repaired defects are on                 *)
 (*   legacy methodGuard (F-C09-3, unknown-method panic) and mux localServers (F-C09-5, path-level *)
 (*   servers leak) were repaired by fix: commits in /repo; so was legacy wirePath (F-C09-7: the   *)
 (*   fragment is cut off like the query, F-C09-8: the escaped path is matched also without        *)
 (*   servers).  The old behaviours stay expressible through the switches (FALSE).                 *)
-CurLegacyObs(doc, req) == LegacyObs(doc, req, FALSE, FALSE, TRUE, TRUE)
-CurMuxObs(doc, req) == MuxObs(doc, req, FALSE, TRUE)
+CurLegacyObs(doc, req) == LegacyObsH(doc, req, FALSE, FALSE, TRUE, TRUE, FALSE)
+CurMuxObs(doc, req) == MuxObsP(doc, req, FALSE, TRUE, TRUE)
+CurMuxBuilds(doc) == MuxBuilds(doc, TRUE, FALSE)
 
 (* what of an observation the L2 models predict (the rest is left to L1) *)
 Gist(o) == IF o.k = "route" THEN <<"route", o.path>> ELSE IF o.k = "rerr" THEN <<"rerr", o.kind>> ELSE <<o.k>>
